@@ -13,9 +13,13 @@ ops:  add <w> <x> | flush <w> | wait <w> | tick | rel <first task of batch> ok|p
                                                next time it passes that point (AddTask said full / not full,
                                                RemoveAll of addAndCheck done, RemoveAll of Flush done)
       unhold <w>                               disarm and release caller w
+      bhold <w>                                caller w takes pe.wgBarrier and parks inside it (skip if it is taken)
+      brel wait|flush|none                     that caller releases it and goes straight on with Wait / Flush / nothing
       (a task is the number 8*id + byte size; only the chunk executor looks at the size)
 obs:  [d=0|1] w=<class per caller> fl=<sorted classes of flushers> c=<container> cmd=<len> inf=<inflight>
       g=<guarded> cb=<batches inside the callback> nf=<tasks whose callback ended> [all=<…>]   | skip
+      [ends=<callback ends of this line in order> wret=<caller>:<k>,…]   only when a Wait returned in this line: it
+                                               returned after the first k of `ends` (monitor only, not compared)
       | stuck moving=<state@frame,…>           the harness watchdog: no quiescence within its bound
 -/
 import Std.Data.HashSet
@@ -125,8 +129,9 @@ def insertStr (x : String) : List String → List String
 def sortStr (l : List String) : List String := l.foldr insertStr []
 
 /-- the visible part of a quiescent configuration, printed like the harness prints it -/
-def visible (d : DCfg) (holds : Holds) (finSeen : List Nat) (s : St) : String :=
-  let ws := ((s.thr.take (d.P + 1)).zipIdx).map fun (th, t) => if isHeld holds t th.pc then "hold" else classOf th.pc
+def visible (d : DCfg) (holds : Holds) (bholder : Option Nat) (finSeen : List Nat) (s : St) : String :=
+  let ws := ((s.thr.take (d.P + 1)).zipIdx).map fun (th, t) =>
+    if bholder = some t then "bhold" else if isHeld holds t th.pc then "hold" else classOf th.pc
   let fls := sortStr (((s.thr.drop (d.P + 1)).filter fun th => th.pc ≠ .idle).map fun th => classOf th.pc)
   let cbs := sortStr ((s.thr.filter fun th => inCallback th.pc).map fun th => showList "." th.reg)
   let nf := sortNat (s.finished.filter fun x => !finSeen.contains x)
@@ -144,11 +149,13 @@ def dedup (l : List St) : List St := l.foldl (fun acc s => if acc.contains s the
 structure DState where
   states : List St
   holds  : Holds := []
+  bholder : Option Nat := none   -- the caller that holds pe.wgBarrier for the harness
   finSeen : List Nat := []
   mon    : Spec.Mon := {}
   dead   : Bool := false     -- the model lost track in this section (already reported)
   stuckSeen : Bool := false
   lastCont : Option (List Nat) := some []   -- the container the implementation showed on the previous line
+  lastWs : Option (List String × List String × String) := none   -- caller classes, flusher classes, cmd of the previous line
 
 def fuel : Nat := 200000
 
@@ -171,7 +178,7 @@ def drainRounds (d : DCfg) : Nat → List St → List St × Bool
     else (q, false)
 
 /-- apply the harness action of one line to one configuration: `none` = the model says "skip" -/
-def applyOp (d : DCfg) (holds : Holds) (s : St) : List String → Option (List St × Bool × String)
+def applyOp (d : DCfg) (holds : Holds) (bholder : Option Nat) (s : St) : List String → Option (List St × Bool × String)
   | ["add", w, x] => do
     let w ← w.toNat?; let x ← x.toNat?
     if w ≥ d.P then none else
@@ -218,11 +225,27 @@ def applyOp (d : DCfg) (holds : Holds) (s : St) : List String → Option (List S
     -- `holds` already has caller w removed (runLine)
     let (q, ex) := closure (internalSucc d false holds) fuel [s] [] []
     pure (q, ex, "")
+  | ["bhold", w] => do
+    let w ← w.toNat?
+    if w ≥ d.P ∨ bholder.isSome ∨ s.barrier then none else
+    if (s.thr[w]?.map (·.pc)) ≠ some Pc.idle then none else
+    pure ([{ s with barrier := true }], false, "")
+  | ["brel", f] => do
+    let w ← bholder
+    let s0 := { s with barrier := false }
+    let s1 ← (match f with
+      | "wait" => step d.cfg s0 w .wait
+      | "flush" => step d.cfg s0 w .flush
+      | "none" => some s0
+      | _ => none)
+    let (q, ex) := closure (internalSucc d false holds) fuel [s1] [] []
+    pure (q, ex, "")
   | ["t+", n] => do
     let n ← n.toNat?
     let s' ← step d.cfg s 0 (.advance n)
     pure ([s'], false, "")
   | ["drain"] => do
+    let s := if bholder.isSome then { s with barrier := false } else s
     let (q1, ex1) := drainRounds d 64 [s]
     let q1w := q1.filterMap fun s1 => step d.cfg s1 d.P .wait
     let (q2, ex2) := drainRounds d 64 q1w
@@ -235,7 +258,15 @@ def mkCfg (cfgToks : List String) : DCfg :=
   { cfg := { full := full, interval := kvNat cfgToks "iv" 10, fixed := true },
     P := kvNat cfgToks "P" 1, auto := kvNat cfgToks "gate" 0 = 0, pm := kvNat cfgToks "pm" 0 }
 
-def callOf : List String → Spec.Call
+def opCaller : List String → Option Nat
+  | [op, w] => if op = "flush" ∨ op = "wait" ∨ op = "bhold" then w.toNat? else none
+  | [op, w, _] => if op = "add" ∨ op = "hold" then w.toNat? else none
+  | _ => none
+
+def callOf (bholder : Option Nat) : List String → Spec.Call
+  | ["brel", "wait"] => match bholder with
+    | some w => .wait w
+    | none => .other
   | ["add", w, x] => match w.toNat?, x.toNat? with
     | some w, some x => .add w x
     | _, _ => .other
@@ -273,12 +304,33 @@ def runLine (d : DCfg) (kind : String) (max : Int) (sec : Nat) (acc : Report × 
     r := r.mismatch sec l.idx "a quiescent observation" impl
     return (r, { ds with dead := true })
   let holds' := if impl = "skip" then ds.holds else holdsAfter ds.holds l.op
+  let bholder' : Option Nat := if impl = "skip" then ds.bholder else
+    match l.op with
+    | ["bhold", w] => w.toNat?
+    | ["brel", _] => none
+    | ["drain"] => none
+    | _ => ds.bholder
+  -- tokens that carry the event order inside the line are for the monitor only
+  let obsCmp := l.obs.filter fun t => !(t.startsWith "ends=" || t.startsWith "wret=")
+  let implCmp := joinSp obsCmp
   -- (a) the monitor, on the implementation's observation alone
   if impl ≠ "skip" then
     let ws := ((kvStr l.obs "w" "").splitOn ",")
     let idle := fun (w : Nat) => ws[w]? = some "idle"
     let nf := parseNats (kvStr l.obs "nf" "-")
-    let (m', msgs) := ds.mon.step (callOf l.op) idle nf
+    let ends := parseNats (kvStr l.obs "ends" "-")
+    let wret := ((kvStr l.obs "wret" "").splitOn ",").filterMap fun t =>
+      match t.splitOn ":" with
+      | [w, k] => match w.toNat?, k.toNat? with
+        | some w, some k => some (w, k)
+        | _, _ => none
+      | _ => none
+    -- what had been executed when the Wait of caller w returned (all of this line's ends if no order is known)
+    let endsAt := fun (w : Nat) => match wret.find? (fun p => p.1 == w) with
+      | some p => ends.take p.2
+      | none => nf
+    let (m', msgs) := ds.mon.step (callOf ds.bholder l.op) idle nf endsAt
+    if wret.any (fun p => p.2 < ends.length) then r := r.addCover "wait-returned-before-last-callback-end-of-line"
     for msg in msgs do r := r.violation sec l.idx msg
     ds := { ds with mon := m' }
     for c in ws do r := r.addCover ("caller-" ++ c)
@@ -316,23 +368,35 @@ def runLine (d : DCfg) (kind : String) (max : Int) (sec : Nat) (acc : Report × 
     if ws.contains "hold" ∧ fls.contains "flock" then r := r.addCover "tick-taken-while-caller-holds-lock"
     if ws.contains "hold" ∧ ws.contains "flock" then r := r.addCover "flush-or-wait-while-caller-holds-lock"
     if ws.contains "hold" ∧ ws.contains "alock" then r := r.addCover "add-while-caller-holds-lock"
+    -- input class: somebody is parked at the wait-group barrier (before wg.Add) when the barrier is released
+    if l.op.head? = some "brel" then
+      match ds.lastWs with
+      | some (ws0, fls0, cmd0) =>
+        if fls0.contains "enter" then r := r.addCover s!"brel-{l.op.getD 1 "?"}-while-flusher-parked-before-wg.Add"
+        if ws0.contains "enter" then r := r.addCover s!"brel-{l.op.getD 1 "?"}-while-Flush-caller-parked-before-wg.Add"
+        if fls0.contains "enter" ∧ ws0.contains "confirm" ∧ cmd0 = "0" then r := r.addCover s!"brel-{l.op.getD 1 "?"}-while-handed-over-batch-not-in-wait-group"
+      | none => pure ()
+    ds := { ds with lastWs := some (ws, fls, kvStr l.obs "cmd" "0") }
   else r := r.addCover "skip"
   -- (b) trace inclusion in the model
-  if ds.dead then return (r, { ds with holds := holds' })
+  if ds.dead then return (r, { ds with holds := holds', bholder := bholder' })
   let holdsOp := match l.op with | ["unhold", _] => holds' | ["drain"] => [] | _ => ds.holds
   let mut next : List St := []
   let mut exhausted := false
   let mut sample := ""
+  let busy : Bool := match opCaller l.op with
+    | some w => ds.bholder = some w     -- that caller is parked inside the barrier
+    | none => false
   for s in ds.states do
-    match applyOp d holdsOp s l.op with
+    match (if busy then none else applyOp d holdsOp ds.bholder s l.op) with
     | none =>
       if impl = "skip" then next := s :: next else sample := "skip"
     | some (qs, ex, pre) =>
       exhausted := exhausted || ex
       for q in qs do
-        let v := pre ++ visible d holds' ds.finSeen q
+        let v := pre ++ visible d holds' bholder' ds.finSeen q
         let v := if l.op = ["drain"] then v ++ " all=" ++ showList "," (sortNat q.finished) else v
-        if v = impl then next := q :: next else sample := v
+        if v = implCmp then next := q :: next else sample := v
   next := dedup next
   if exhausted then
     r := r.mismatch sec l.idx "state space exhausted the driver's fuel" impl
@@ -358,7 +422,7 @@ def runLine (d : DCfg) (kind : String) (max : Int) (sec : Nat) (acc : Report × 
         (q0.thr.any fun th => th.pc == Pc.fLock Ctx.tick && decide (q0.now - th.last = d.cfg.interval * idleRound)) then
       r := r.addCover "tick-at-exactly-idleRound-intervals-races-add"
   | _, _ => pure ()
-  return (r, { ds with states := next, holds := holds', finSeen := if impl = "skip" then ds.finSeen else ds.finSeen ++ nfNow })
+  return (r, { ds with states := next, holds := holds', bholder := bholder', finSeen := if impl = "skip" then ds.finSeen else ds.finSeen ++ nfNow })
 
 def runSection (r : Report) (s : Section) : Report :=
   let d := mkCfg s.cfg
